@@ -18,6 +18,7 @@ func main() {
 	dump := flag.String("dump", "", "debug: dump facts for a function")
 	only := flag.String("only", "", "print only the obligation with this key")
 	list := flag.Bool("list", false, "print every obligation")
+	reqs := flag.String("requires", "", "debug: print the preconditions computed for a function")
 	flag.Parse()
 	start := time.Now()
 	if *verif == "" {
@@ -31,6 +32,22 @@ func main() {
 		}
 	}
 	p, err := loadProgram(*repo, "")
+	if *reqs != "" && err == nil {
+		ctx := newCtx(p, "C17", "quick")
+		ctx.ruleInv()
+		na := ctx.nilAnalysis()
+		fn := p.ByName[*reqs]
+		for _, r := range na.requires[fn] {
+			fmt.Println("REQ:", describeFact(r.fact), "\n   origin:", r.origin)
+			for _, f := range r.pc {
+				fmt.Printf("      when %s = %v\n", factKey(f.Kind, f.T), f.Val)
+			}
+		}
+		for _, f := range na.failed[fn] {
+			fmt.Println("FAIL:", f.detail)
+		}
+		return
+	}
 	if *dump != "" {
 		if err != nil {
 			fmt.Fprintln(os.Stderr, err)
